@@ -361,6 +361,11 @@ func (vc *VC) applyContract(st *State, c *Contract, key string, sig *types.Signa
 		if usesCall(en.E, "callres") || usesCall(en.E, "callarg") || usesCall(en.E, "called") || usesCall(en.E, "keys") {
 			continue // internal clause (own call sites / own literal tables): not part of the interface
 		}
+		if vc.contract != nil && vc.contract.Use != nil {
+			if tags, ok := vc.contract.Use[lastName(key)]; ok && !containsStr(tags, en.Tag) {
+				continue // the caller's contract selects the postconditions it relies on
+			}
+		}
 		t, err := post.EvalBool(en.E)
 		if err != nil {
 			sfail("call %s: ensures %q: %v", key, en.Src, err)
@@ -1100,3 +1105,20 @@ func (vc *VC) declareUF(uf *UF) {
 }
 
 func bigZero() *big.Int { return big.NewInt(0) }
+
+// lastName: "tls.(*UConn).SetTLSVers" -> "SetTLSVers"
+func lastName(key string) string {
+	if i := strings.LastIndex(key, "."); i >= 0 {
+		return key[i+1:]
+	}
+	return key
+}
+
+func containsStr(xs []string, x string) bool {
+	for _, y := range xs {
+		if y == x {
+			return true
+		}
+	}
+	return false
+}
